@@ -41,7 +41,7 @@ func init() {
 	}
 }
 
-var byteLayerProp = map[string]bool{"C01": true, "C03": true, "C08": true, "C09": true, "C10": true, "C13": true}
+var byteLayerProp = map[string]bool{"C07": true, "C01": true, "C03": true, "C08": true, "C09": true, "C10": true, "C13": true}
 
 var replayCache = map[string][]map[string]interface{}{}
 
@@ -99,6 +99,26 @@ func findFailingInput(o *checkOpts, prop string, r *obResult) map[string]interfa
 	return pick
 }
 
+// lastBounded: the BOUNDED lines of the most recent harness run
+var lastBounded []map[string]interface{}
+
+// runBounded runs the bounded stand-in of a property (TestVerifBounded<id> in its harness file), if there is
+// one. It reports what was enumerated; a failing case is a violation with a real failing input.
+func runBounded(o *checkOpts, prop string) (bounded []map[string]interface{}, fails []map[string]interface{}, ran bool) {
+	tgt, ok := replayTargets[prop]
+	if !ok {
+		return nil, nil, false
+	}
+	src := filepath.Join(o.verif, "replay", tgt[0])
+	b, err := os.ReadFile(src)
+	if err != nil || !strings.Contains(string(b), "func TestVerifBounded"+prop+"(") {
+		return nil, nil, false
+	}
+	lastBounded = nil
+	fails = runReplay(o, src, tgt[1], "TestVerifBounded"+prop, "{}")
+	return lastBounded, fails, true
+}
+
 func runReplay(o *checkOpts, src, pkgDir, test, hints string) []map[string]interface{} {
 	tmp, err := os.MkdirTemp("", "govc-replay")
 	if err != nil {
@@ -110,15 +130,15 @@ func runReplay(o *checkOpts, src, pkgDir, test, hints string) []map[string]inter
 	ob, _ := json.Marshal(ov)
 	ovPath := filepath.Join(tmp, "ov.json")
 	os.WriteFile(ovPath, ob, 0o644)
-	cmd := exec.Command("go", "test", "-overlay", ovPath, "-vet=off", "-count=1", "-timeout", "120s", "-run", "^"+test+"$", ".")
+	cmd := exec.Command("go", "test", "-overlay", ovPath, "-vet=off", "-v", "-count=1", "-timeout", "600s", "-run", "^"+test+"$", ".")
 	cmd.Dir = dir
-	cmd.Env = append(os.Environ(), "GOFLAGS=-mod=mod", "GOPROXY=off", "GOSUMDB=off", "GOTOOLCHAIN=local", "REPLAY_HINTS="+hints, "GOCACHE="+goCache())
+	cmd.Env = append(os.Environ(), "GOFLAGS=-mod=mod", "GOPROXY=off", "GOSUMDB=off", "GOTOOLCHAIN=local", "REPLAY_HINTS="+hints, "VERIF_TIER="+o.tier, fmt.Sprintf("VERIF_SEED=%d", o.seed), "GOCACHE="+goCache())
 	done := make(chan struct{})
 	var out []byte
 	go func() { out, _ = cmd.CombinedOutput(); close(done) }()
 	select {
 	case <-done:
-	case <-time.After(150 * time.Second):
+	case <-time.After(630 * time.Second):
 		if cmd.Process != nil {
 			cmd.Process.Kill()
 		}
@@ -130,6 +150,12 @@ func runReplay(o *checkOpts, src, pkgDir, test, hints string) []map[string]inter
 	}
 	var fails []map[string]interface{}
 	for _, line := range strings.Split(string(out), "\n") {
+		if i := strings.Index(line, "BOUNDED: "); i >= 0 {
+			var m map[string]interface{}
+			if json.Unmarshal([]byte(line[i+len("BOUNDED: "):]), &m) == nil {
+				lastBounded = append(lastBounded, m)
+			}
+		}
 		if i := strings.Index(line, "REPLAY-FAIL: "); i >= 0 {
 			var m map[string]interface{}
 			if json.Unmarshal([]byte(line[i+len("REPLAY-FAIL: "):]), &m) == nil {
